@@ -4,7 +4,7 @@ units: one process per (unit, shard).  `checks_*` is -rapid.checks for rapid
 units (None for plain enumerations, which size themselves from VERIF_TIER).
 """
 
-HOOK_COMMITS = []
+HOOK_COMMITS = ["a1e4d44"]
 
 NOT_APPLICABLE = {}
 
@@ -144,5 +144,148 @@ CHECKS = {
         assumptions=["control batches are not generated for the Conn/Reader path (the statement reserves hiding them to Client.Fetch)", "format-0/1 compressed wrappers carry contiguous relative inner offsets",
                      "Reader MaxWait >= 150 ms: its read deadline equals MaxWait and leaves the broker a quarter of it"],
         units=[dict(run="TestReader", checks_quick=200, checks_thorough=1200, shards_quick=6, shards_thorough=16, timeout=2400)],
+    ),
+    "C18": dict(
+        pkg="props/c18", level="fault_enumeration",
+        technique="enumeration of mechanism x advertised handshake versions x entry point x failing step against a hand-written PLAIN/SCRAM reference server, plus property-based testing (rapid) of credentials on top",
+        level_text=("The product {PLAIN, SCRAM-SHA-256, SCRAM-SHA-512} x {broker advertises SaslHandshake v0 only (raw tokens), v0-v1 (framed SaslAuthenticate)} x "
+                    "{Dialer.DialContext+ReadPartitions, Dialer.DialLeader+ReadOffsets, Transport via Client.ListOffsets, Transport via Writer.WriteMessages} x 17 outcomes "
+                    "(none; unsupported mechanism, handshake error code, close at handshake; wrong password, unknown user (late/early), close or error code at authenticate round 1/2; "
+                    "malformed server-first, nonce not extending the client's, low iteration count, wrong server signature, malformed server-final, in-band e= server-final) is enumerated completely (316 points) "
+                    "against the fake broker's own RFC 4616 / RFC 5802 server; rapid adds generated user names and passwords (printable ASCII with ',' '=' and escape look-alikes, RFC 4013 cases with known prepared form). "
+                    "Per connection the broker journal decides: only ApiVersions/SaslHandshake/SaslAuthenticate (or raw tokens) before the broker's verdict ok, nothing after a failed step, "
+                    "the call returns an error and the client closes every connection, framing follows the handshake version, the exchange completes iff credentials are right and the server signature verifies, "
+                    "and the real request after a completed exchange is answered from the model."),
+        level_note=("faults apply to every connection of a case alike; stalls (no response) are not injected because Conn has no deadline during the dial-time exchange; "
+                    "refusing a low PBKDF2 iteration count is the SCRAM client library's policy and is only observed; Reader/ConsumerGroup are covered through the Dialer they use"),
+        rule=("case = (mechanism, advertised SaslHandshake and SaslAuthenticate versions, entry point, fault, error code, user, password, wrong password, decoy accounts, iterations, partition range); "
+              "non-trivial = a completed exchange followed by a real request answered from the model, or a failure at an authenticate round (step >= 1); handshake-level failures count as evaluated only. "
+              "Distinct by the whole case value."),
+        assumptions=["the reference server stores the RFC 4013 prepared form of SCRAM credentials (the xdg-go/scram client applies SASLprep) and the raw form for PLAIN (sent as is)",
+                     "brokers close the connection on a failed raw (handshake v0) exchange and answer a failed framed exchange with an error code",
+                     "user names and passwords are non-empty, NUL-free, free of ASCII control characters and of SASLprep-prohibited code points"],
+        units=[
+            dict(run="TestProduct", checks=None, timeout=600),
+            dict(run="TestGenerated", checks_quick=1500, checks_thorough=12000, shards_quick=2, shards_thorough=8, timeout=1200),
+        ],
+    ),
+    "C11": dict(
+        pkg="props/c11", level="fault_enumeration",
+        technique="fault enumeration + differential testing: every Conn operation x negotiated version x error field x error code x following operation, compared with the same operation on a fresh connection; rapid-generated transport faults",
+        level_text=("The product (3 version profiles x 23 Conn operations incl. the consumer-group operations x each error field of the response x 8 error codes x 23 following operations) is enumerated "
+                    "(thorough: completely; quick: a 1/23 slice in which codes and following operations rotate under every (profile, operation, field)). The fake broker answers the first operation with the code in that field; "
+                    "the following operation on the same Conn must return what it returns on a freshly dialled Conn to an identical cluster. Transport-level faults (cut at byte k, dropped response, garbage size prefix, wrong correlation id) "
+                    "must make the first operation fail, every later operation fail and nothing more be written."),
+        level_note="the group operations are reached through exported wrappers compiled under the verif tag; state equality of the two clusters relies on the fake applying nothing when it answers with an injected code",
+        rule=("case = (profile, operation, error field, code | transport fault, following operation); non-trivial = the fault reached the client as an error of the first operation; distinct by the tuple."),
+        assumptions=["error codes are injected only into fields the API's response has at the negotiated version", "one broker plays leader, controller and coordinator"],
+        exhaustive_thorough=True,
+        units=[
+            dict(run="TestBrokerErrors", checks=None, shards_quick=2, shards_thorough=16, timeout=1800),
+            dict(run="TestTransportFaults", checks_quick=150, shards_quick=3, checks_thorough=1500, shards_thorough=8),
+        ],
+    ),
+    "C12": dict(
+        pkg="props/c12", level="exploration",
+        technique="model-based property testing (rapid): generated cluster layouts, per-broker advertised version tables and request/cluster-change histories run through one kafka.Transport against the in-memory fake cluster; oracle over the brokers' journal",
+        level_text=("Generated cases: 1-5 brokers (plus brokers added/removed later), 1-3 topics x 1-5 partitions with leaders spread over the brokers, controller, pinned group and transaction coordinators "
+                    "(group ids and transactional ids in separate key spaces), 1-2 bootstrap addresses, MetadataTTL 20-100 ms, per broker an advertised range for each of 21 exercised APIs "
+                    "(default, max below / above the library's, min raised, single version; always overlapping) and a history of 5-25 steps: Produce, Fetch, ListOffsets over several leaders, Client.Metadata with topic filters "
+                    "(known, unknown, duplicate, empty, nil), wire Metadata with auto-creation, FindCoordinator, 10 group APIs, 4 transaction APIs, CreateTopics/DeleteTopics, 1-3 concurrent copies of a request, interleaved with leader moves, "
+                    "coordinator moves, controller moves, broker additions (with their own version table) and removals, waits for the cache to catch up and sleeps. Oracle over the fake's journal: (1) every request is encoded at "
+                    "min(library max, broker max) of the ApiVersions answer given on that very connection and never outside the advertised range; (2) every Produce/Fetch/ListOffsets part arrives at the leader, every Create/DeleteTopics at "
+                    "the controller designated by one of the metadata responses the transport can have been using (from the response matched by a cache probe taken right before the call up to the last one that reached a broker before the request did), "
+                    "every group / transaction request at a broker named by a FindCoordinator answer for that key and key space (or the true coordinator); (3) when the cache equals the cluster layout at the start of a call the request really reaches the designated broker; "
+                    "(4) after a change the cache shows the new layout within 10xTTL+2 s (later than TTL+300 ms = inconclusive) and from then on requests go to the new leader; "
+                    "(5) the cache content is always one of the responses the brokers gave, moving forward only, and Client.Metadata(topics) equals the topic-filtered content (brokers, controller, partitions with leader/replicas/isr, UNKNOWN_TOPIC_OR_PARTITION marks, request order) of such a response."),
+        level_note=("schedules of the background refresh are sampled, not enumerated; stale routing before the next refresh (NOT_LEADER answers) is accepted as the statement allows; metadata v0 and FindCoordinator v0 are never negotiated "
+                    "(no controller id / no key type at those versions); request encodings themselves belong to C04 (malformed requests are only counted here); the fake answers transaction APIs with default bodies"),
+        rule=("case = (brokers with racks and version tables, bootstrap list, controller, topics with leaders, coordinators, auto-create setting, TTL, step history); every 2nd case is built from one of 6 strata "
+              "(leader move + stale request + wait + request; same APIs on brokers with heterogeneous tables; coordinators off the bootstrap broker + coordinator move + multi-group DescribeGroups; ListOffsets over all partitions of a topic; "
+              "topic creation via a non-bootstrap controller then use of the topic; broker joins and takes over a partition). Non-trivial = at least 2 brokers and at least one routed (non-metadata) request whose destination was checked; "
+              "distinct by (broker count, bootstrap, controller, TTL, number of version overrides, leader layout, sequence of step kinds, label set)."),
+        assumptions=["the fake cluster's metadata, FindCoordinator and ApiVersions answers are what real brokers give for the modelled layout; the harness is the only source of cluster changes",
+                     "the transport's cache changes only through its discover loop, one metadata exchange after the other (observed in transport.go; the oracle's candidate window relies on it)",
+                     "a removed broker first hands its partitions, coordinators and controller role to another broker (controlled shutdown); bootstrap brokers are never removed",
+                     "wall-clock bounds are generous (10xTTL+2 s for 'never', 4 s per call); late-but-arrived refreshes and timed-out calls are inconclusive, not failures"],
+        units=[dict(run="TestRouting", checks_quick=1200, checks_thorough=6000, shards_quick=4, shards_thorough=16, timeout=1500)],
+    ),
+    "C19": dict(
+        pkg="props/c19", level="exploration",
+        technique="model-based property testing (rapid): generated cluster states served by the fake cluster, queries through Conn and through Client/Transport, oracle computed from the case's own model; metamorphic with/without an injected per-partition failure",
+        level_text=("Generated clusters (1-4 brokers with racks, 1-4 topics x 1-4 partitions with arbitrary leaders, replica/ISR/offline lists incl. unregistered broker ids and leaderless partitions, logs with holes, "
+                    "non-monotonic timestamps, log start inside/at the end of the log, end past the last record, offsets beyond 2^33, committed offsets + metadata for two groups with pinned coordinators, broker version ceilings "
+                    "ListOffsets v1-5 / Metadata v1-8 / OffsetFetch v0-5 / OffsetCommit v0-7 / FindCoordinator v0-2). Conn (DialLeader / Dial): ReadFirstOffset, ReadLastOffset, ReadOffsets, ReadOffset(t), Seek with SeekStart/Absolute/End/Current "
+                    "and SeekDontCheck, in and out of range, each followed by Offset(), ReadPartitions (own topic, lists, all, unknown). Client: ListOffsets over many topics/partitions/leaders with First/Last/TimeOffsetOf mixes and repeated partitions, "
+                    "OffsetFetch (lists and all-topics), OffsetCommit (then the coordinator's recorded offsets+metadata are compared), ConsumerOffsets, Metadata. Faults: error code or dropped connection on exactly one partition's (or one sub-request's) "
+                    "ListOffsets, refused dials to one leader, error code on one partition of an OffsetFetch / OffsetCommit answer (the rejected commit is not applied), unknown partitions, leaderless partitions; the same query runs without and with the fault "
+                    "and everything but the failed partition must be identical and equal to the model."),
+        level_note="cluster state is static while a query runs (only OffsetCommit ops change it, sequentially), so 'the state when the request was served' is the model's state; Metadata v0 is excluded (the transport cannot ask for all topics at v0, C12's business)",
+        rule=("case = (cluster spec, 1-6 ops; an op = a Conn program of 3-10 steps or one Client call, optional fault). Strata drawn per case: TestConn 1/4 seek-heavy starting with SeekEnd, 1/4 with a fault on the k-th ListOffsets of the connection; "
+              "TestClient 1/3 ListOffsets over every partition of >=2 topics x >=2 partitions on >=2 brokers with a fault, 1/3 starting with a faulted OffsetFetch/OffsetCommit. "
+              "Non-trivial = a request spans >=2 partitions or >=2 leaders, or a Seek whence is not absolute, or a fault is present; distinct by the full case value."),
+        assumptions=["timestamp lookup = first stored record at or after the log start with timestamp >= t (the fake's rule, cross-checked against the model on every query)",
+                     "OffsetCommit is sent with generation -1 and no member id (simple consumer)", "SeekDontCheck is combined only with SeekAbsolute and SeekCurrent, as documented",
+                     "what a failed partition's own entry carries besides Error is not judged; after an injected fault on a Conn, a later error on the same Conn is inconclusive (wrong values are not)"],
+        units=[
+            dict(run="TestConn", checks_quick=1500, checks_thorough=30000, shards_quick=2, shards_thorough=8, timeout=1200),
+            dict(run="TestClient", checks_quick=700, checks_thorough=12000, shards_quick=4, shards_thorough=8, timeout=1500),
+        ],
+    ),
+    "C20": dict(
+        pkg="props/c20", level="fault_enumeration",
+        builds={"default": "", "unsafe": "unsafe"},
+        technique="fault enumeration over the reference encoder's field map, decoded in rlimited worker processes (isolation runner) + coverage-guided fuzzing of ReadResponse",
+        level_text=("For every registered API x version a reference-encoded response (plus, for Fetch, record sets of formats 0, 1 and 2, and a 600-element variant that crosses the decoder's preallocation) "
+                    "is mutated one length/count field at a time: frame size, string/bytes/array lengths (fixed and compact), tagged-field count/id/size, record-set size, v2 batch length, v0/v1 message size; "
+                    "each field takes every value of a hostile set (-1, -2, 0, 1, true+-1, exactly the remaining bytes, +1, +2, 512/513, 2^15-1, 2^16, 65537, 2^31-1, -2^31, and for varints 2^31, 2^32-1, 2^63-1, 2^63, 2^64-1, "
+                    "10- and 11-byte over-long and an unterminated encoding); varints are re-spliced with the frame size prefix both adjusted and left as is; each mutated frame is supplied exactly (then EOF), followed by further responses, "
+                    "cut to a prefix, and with the frame size raised to 2^31-1. Every frame is decoded by protocol.ReadResponse in a worker process (RLIMIT_AS 3 GiB, 64 MiB stacks, collector off while decoding, 2 s watchdog); "
+                    "a sample also goes through kafka.Transport.RoundTrip against an in-memory broker, and the raw SASL token length through RawExchange and a SASL Transport on the v0 handshake path. "
+                    "Oracle: outcome error or decoded message; panic, no return, worker death (out of memory, stack overflow), more than 1 MiB + 1024 x bytes supplied allocated, or bytes consumed beyond the announced frame are violations. "
+                    "Quick enumerates first/last/flexible-boundary/one seeded version per API, thorough all versions with two corpus seeds and more values; thorough adds 3 min of native fuzzing of ReadResponse(api, version, bytes) with the same oracle in-process."),
+        level_note=("one field at a time (plus the frame size in the 'bigframe' supply mode): combinations of several hostile fields are left to the fuzzer; fields inside checksummed content (record bodies, v0/v1 key/value lengths, v2 record count) are outside the statement and only observed; "
+                    "the allocation bound is validated on the unmutated corpus first (must stay below half the bound); a worker death or timeout is re-run alone in a fresh worker with a 10 s watchdog before it counts"),
+        rule=("case = (api, version, corpus frame, field of the encoder's field map, hostile value class, splice mode, supply mode, entry point); enumerated product, quick samples versions. "
+              "Non-trivial = the mutation changed the decode path: outcome or consumed length differs from the unmutated frame in the same supply mode; distinct by (api, version, field kind, value class) (+ entry point for the Transport unit)."),
+        assumptions=["reference encoder's field map lists every length/count field outside checksummed content (refcodec self-test + C04)",
+                     "bytes supplied to the decoder = bytes actually received; workers measure runtime.MemStats.TotalAlloc around the decode only",
+                     "well-formed record sets cost the library one 64 KiB page per v0/v1 message or v2 batch (observed, see notes): corpus frames carry records in at most two partitions so that unmutated frames stay below half the bound"],
+        units=[
+            dict(run="TestMutations", checks=None, shards_quick=1, shards_thorough=4, timeout=900),
+            dict(run="TestTransport", checks=None, shards_quick=1, shards_thorough=2, timeout=900),
+            dict(run="TestArrays", build="unsafe", checks=None, shards_quick=1, shards_thorough=2, timeout=900),
+            dict(run="FuzzReadResponse", fuzz=True, tier="thorough", fuzztime_thorough="180s", timeout=500),
+        ],
+    ),
+    "C05": dict(
+        pkg="props/c05", level="exploration",
+        builds={"default": "", "race": ""},
+        technique="differential property-based testing (rapid) against an independent strict record codec: three produce routes captured on the wire of a fake broker, reference-encoded logs decoded through Client.Fetch / Conn.ReadBatch / Reader, generated hold/release schedules over pooled pages, coverage-guided fuzzing of RecordSet.ReadFrom on mutated sets",
+        level_text=("Produce: generated message lists (key/value nil, empty, 1 B .. 3x64 KiB+1; 0-4 headers incl. empty key and nil/empty value; times with sub-millisecond parts, non-monotonic, decades apart, zero = now) go through "
+                    "Writer, Client.Produce (protocol.NewRecordReader and an own RecordReader whose Bytes deliver short reads) and Conn.WriteMessages/WriteCompressedMessages, produce ceiling v2/v3/v5/v7/v8 x every codec; "
+                    "the fake broker decodes every request strictly with the reference codec (lengths, CRC-32/CRC-32C, attributes, counts, no trailing bytes) and the oracle compares record count, offset deltas 0..n-1, lastOffsetDelta, "
+                    "relative inner offsets of v1 wrappers, key/value with null vs empty, headers and floor-millisecond timestamps in order. "
+                    "Fetch: logsim layouts (format 0 plain, formats 1/2 x every codec, v1 wrappers with relative offsets, compaction holes, empty and control batches, one batch with a corrupted CRC, values spanning pages, broker down-conversion for fetch < v4) "
+                    "are served at fetch v2..v11 with byte limits; every Client.Fetch response is compared with the reference decoding of exactly the bytes the broker sent (whole batches only), Conn.ReadBatch and Reader with the model (nil == empty). "
+                    "Pool: 1-4 goroutines decode 2-5 record sets through Client.Fetch and RecordSet.ReadFrom (bufio / bytes.Buffer / plain reader), hold key/value Bytes unread or half read across later decodes and releases, and compare them when released. "
+                    "Mutation: bit flips in checksum-covered bytes and in the CRC field, base-offset / leader-epoch rewrites, cuts at a byte limit and short streams; decoded records must equal the intact whole batches (prefix if a batch is damaged). Exploration: all dimensions are sampled."),
+        level_note=("trusts refcodec/records.go (own CRC tables, format libraries used directly) and the fake broker; Time zero is judged against wall-clock readings around the call; header values are compared by content only (null vs empty header values is counted, not judged); "
+                    "format 1 cannot carry headers (produce <= v2 compares key/value/timestamp only); goroutine interleavings and sync.Pool hand-over are sampled, the race-built TestPool unit reports data races as violations; "
+                    "bits inside compressed payloads are not flipped (decompressor robustness is C16/C20)"),
+        rule=("cases = (route, produce ceiling, codec, calls of message recipes, batching/reader options) | (path, fetch ceiling, log layout, start offset, byte limit) | (record sets, per-worker decode/hold/release programs, GOMAXPROCS) | (layout, reader type, mutations, cut); "
+              "routes, versions and codecs are drawn uniformly. Non-trivial = at least 2 records and one of {compression, headers, nil/empty mix, value or key spanning pages, sub-ms timestamp, several batches, control or corrupt batch}, "
+              "for the pool unit: some Bytes was held across a later decode; for the mutation unit: >= 2 records and a mutation, cut or second batch. Distinct by (options, per-message shape classes, label set) resp. (path, version, start, limit class, layout summary, labels) resp. the full schedule."),
+        assumptions=["message times lie between 1 ms after the epoch and year 2200 (0 ms means 'no timestamp' to the library)", "a message larger than Writer.BatchBytes is refused by contract, BatchBytes is raised above the largest message",
+                     "format-0/1 compressed wrappers carry contiguous relative inner offsets (the reference encoder cannot express compacted v1 wrappers)", "control batches and corrupt batches are served on the Client.Fetch path only",
+                     "stored timestamps are >= 1 ms"],
+        units=[
+            dict(run="TestProduce", checks_quick=2500, checks_thorough=60000, shards_quick=2, shards_thorough=4, timeout=1500),
+            dict(run="TestFetch", checks_quick=450, checks_thorough=5000, shards_quick=4, shards_thorough=8, timeout=1800),
+            dict(run="TestPool", checks_quick=1500, checks_thorough=40000, shards_thorough=4, timeout=1500),
+            dict(run="TestMutatedSets", checks_quick=5000, checks_thorough=200000, shards_thorough=4, timeout=1500),
+            dict(run="TestPool", build="race", tier="thorough", checks_thorough=2500, timeout=1200),
+            dict(run="FuzzRecordSetReadFrom", fuzz=True, tier="thorough", fuzztime_thorough="120s", timeout=400),
+        ],
     ),
 }
